@@ -218,8 +218,8 @@ def _sh_cfg(tier):
             product_pins(p=[2], h0=[0], l0=[1], s0=[2], rkind=[1, 2], rsym=[0], rs=[3], rf=[2], d0=[1, 8]) + \
             product_pins(p=[1], h0=[0], l0=[1], rkind=[3], rsym=[0], rs=[1, 3], rf=[0])
     return product_pins(p=[2], h0=[0], l0=[0, 1, 2], rkind=[0], rsym=[0, 1, 2], rs=[0, 1], rf=[1, 3],
-                        d0=[0, 1, 2], d1=[0, 2]) + \
-        product_pins(p=[2], h0=[0], l0=[1, 2], rkind=[1, 2], rsym=[0, 1], rs=[1, 3], rf=[1, 2],
+                        d0=[0, 1, 2]) + \
+        product_pins(p=[2], h0=[0], l0=[1, 2], rkind=[1, 2], rsym=[0, 1], rf=[1, 2],
                      d0=[1, 3, 5, 8, 10]) + \
         product_pins(p=[1, 2], h0=[0], l0=[1], rkind=[3], rsym=[0], rs=[1, 2, 3], rf=[0], d0=list(range(8)))
 
@@ -230,9 +230,9 @@ def _sh_pda(tier):
                             rf=[1, 2], d0=[1], d1=[0]) + \
             product_pins(m=[2], finals=[2], i0=[1], c0=[3], f1=[0, 1], rkind=[1], rsym=[0], rs=[3], rf=[2],
                          d0=[1])
-    return product_pins(m=[1, 2], finals=[2, 3], i0=[0, 1], c0=[0, 2, 3], f1=[0, 1], rkind=[0], rsym=[0, 1], rs=[1],
-                        rf=[1, 2, 3], d0=[1, 2], d1=[0, 2]) + \
-        product_pins(m=[2], finals=[2, 3], i0=[0, 1], c0=[3], f1=[0, 1], rkind=[1, 2], rsym=[0], rs=[1, 3], rf=[1, 2],
+    return product_pins(m=[1, 2], finals=[2, 3], i0=[0, 1], c0=[0, 2, 3], rkind=[0], rs=[1],
+                        rf=[1, 2, 3], d0=[1, 2]) + \
+        product_pins(m=[2], finals=[2, 3], i0=[0, 1], c0=[3], rkind=[1, 2], rsym=[0], rs=[1, 3], rf=[1, 2],
                      d0=[1, 3, 8]) + \
         product_pins(m=[2], finals=[2], i0=[1], c0=[3], f1=[0], rkind=[3], rsym=[0], rs=[1, 3], rf=[0],
                      d0=list(range(8)))
